@@ -378,7 +378,7 @@ func amplifyExplain(env *core.Env, in core.Case, tr core.Case, why string) []cor
 	}
 	add(rev)
 	r := env.Rand
-	for k := 0; k < 40; k++ {
+	for k := 0; k < 90; k++ {
 		p := cp(clauses)
 		r.Shuffle(len(p), func(i, j int) { p[i], p[j] = p[j], p[i] })
 		if k%2 == 1 {
